@@ -71,6 +71,22 @@ class PowInner:
         return x
 
 
+class AsymInner:
+    """user-supplied inner distance that is NOT symmetric in its arguments (a one-sided / pinball-like loss):
+    `up` per unit the first series lies above the second, `down` per unit it lies below"""
+    def __init__(self, up, down):
+        self.up, self.down = up, down
+
+    def inner_dist(self, x, y):
+        return self.up * (x - y) if x > y else self.down * (y - x)
+
+    def result(self, x):
+        return x
+
+    def inner_val(self, x):
+        return x
+
+
 def py_distance(case, container="numpy", fast=False):
     from dtaidistance import dtw, dtw_ndim
     nd = case.get("ndim", 1)
@@ -79,6 +95,8 @@ def py_distance(case, container="numpy", fast=False):
         kw["inner_dist"] = CubeInner
     elif case.get("inner") == "pow":
         kw["inner_dist"] = PowInner(case["p"], case["mul"])
+    elif case.get("inner") == "asym":
+        kw["inner_dist"] = AsymInner(case["up"], case["down"])
     if case.get("psi_np") and isinstance(kw.get("psi"), int):
         import numpy as _np
         kw["psi"] = _np.int64(kw["psi"])          # an integer psi may arrive as a NumPy integer
@@ -202,6 +220,41 @@ def affinity_eval(case):
         return res
     for engine in ("py", "c_full", "c_compact"):
         guard("lc_" + engine, lambda e=engine: matches(e))
+    return out
+
+
+# ---------------------------------------------------------------------------------------------------------------------
+# C08: the Cython wrappers allocate the buffers the C routines write into; run under PYTHONMALLOC=debug (guard bytes
+# around every block of the Python allocators, checked on release) in a worker process
+def glue_matrix(series, ndim, block, kw):
+    """distance matrix through the dtw_cc / dtw_cc_omp wrappers; returns the lengths of the returned buffers and the
+    number of pairs the block selects"""
+    import gc
+    import numpy as np
+    from dtaidistance import dtw_cc
+    try:
+        from dtaidistance import dtw_cc_omp
+    except ImportError:
+        dtw_cc_omp = None
+    arrs = [np.array(s, dtype=float).reshape((-1, ndim)) if ndim > 1 else np.array(s, dtype=float) for s in series]
+    n = len(arrs)
+    if block is None:
+        barg, want = None, n * (n - 1) // 2
+    else:
+        rb, re_, cb, ce, triu = block
+        barg = ((rb, re_), (cb, ce)) if triu else ((rb, re_), (cb, ce), False)
+        want = sum(1 for r in range(rb, re_) for c in range(cb, ce) if (c > r or not triu))
+    out = {"want": want, "got": {}}
+    fns = {"dtw_cc": (dtw_cc.distance_matrix if ndim == 1 else dtw_cc.distance_matrix_ndim)}
+    if dtw_cc_omp is not None:
+        fns["dtw_cc_omp"] = (dtw_cc_omp.distance_matrix if ndim == 1 else dtw_cc_omp.distance_matrix_ndim)
+    for name, fn in fns.items():
+        from dtaidistance.util import SeriesContainer
+        data = SeriesContainer.wrap(arrs)          # what dtw.distance_matrix / dtw_ndim.distance_matrix hand over
+        r = fn(data, block=barg, **kw) if ndim == 1 else fn(data, ndim, block=barg, **kw)
+        out["got"][name] = len(r)
+        del r
+        gc.collect()
     return out
 
 
